@@ -220,3 +220,8 @@ Lemma spec_C03_model_lemma sc : spec_C03 sc (eobs_of_model (model_obs sc)) = tru
 Proof. unfold spec_C03. now rewrite spec_route_model_lemma, spec_lifecycle_model. Qed.
 Lemma spec_C10_model_lemma sc : spec_C10 sc (eobs_of_model (model_obs sc)) = true.
 Proof. unfold spec_C10. now rewrite spec_route_model_lemma, spec_lifecycle_model. Qed.
+
+Lemma spec_C18x_model_lemma sc : spec_C18x sc (eobs_of_model (model_obs sc)) = true.
+Proof.
+  unfold spec_C18x. rewrite spec_route_model_lemma, andb_true_r. unfold model_obs. apply spec_C18_eobs.
+Qed.
